@@ -1,6 +1,6 @@
 (* C06 / dangling-node removal (Model.Opt.opt_dangling): semantics, inputs, annotations. *)
 From CC Require Import Base.Prelude Base.Scalar Base.Ty Base.Shape Graph.Value Graph.IR Graph.Eval
-  Model.Opt Model.Uniquify Proofs.OptBase Proofs.OptSem Proofs.OptSim.
+  Model.Opt Model.Uniquify Proofs.OptBase Proofs.OptSem Proofs.OptSim Proofs.OptFresh.
 
 Definition bounded (m : list (option Z)) (n : nat) : Prop :=
   forall k j, nth_error m k = Some (Some j) -> 0 <= j < Z.of_nat n.
@@ -161,6 +161,22 @@ Section Dangling.
           -- rewrite <- I2, nth_error_snoc. eauto.
   Qed.
 
+  Definition dang_fresh (pre : list node) (s : dstate) : Prop :=
+    let '(out, m, o, i) := s in length m = length pre /\ fresh_spec pre out m.
+
+  Lemma dang_fresh_inv sN :
+    fold_left (dangling_step u outp) nodes (Ok ([], [], None, 0)) = Ok sN -> dang_fresh nodes sN.
+  Proof.
+    apply (fold_res_inv (dangling_step u outp) dang_fresh).
+    - apply dangling_step_strict.
+    - cbn. split; auto. apply fresh_spec_nil.
+    - intros pre a post [[[out m] o] i] [[[out' m'] o'] i'] El (I1 & I2) St.
+      apply dangling_step_inv in St as (-> & [(C & _ & -> & -> & ->)|(deps & Ed & _ & -> & -> & ->)]); cbn [dang_fresh];
+        rewrite !app_length; cbn [length]; (split; [lia|]).
+      + rewrite <- (app_nil_r out). apply fresh_spec_step_other; auto.
+      + apply fresh_spec_step_copy; auto.
+  Qed.
+
   Variables (tape : Z -> option value) (vals : list value).
   Hypothesis Hval : valuation sem ft nodes tape vals.
 
@@ -229,6 +245,13 @@ Section DanglingThms.
     splits; auto. intros R. rewrite I7.
     replace ((0 <=? outp) && (outp <? Z.of_nat (length nodes))) with true by lia.
     destruct (nth_error m (Z.to_nat outp)) eqn:X; auto. apply nth_error_None in X. lia.
+  Qed.
+
+  Theorem dangling_fresh nodes outp p :
+    opt_dangling nodes (Some outp) = Ok p -> fresh_spec nodes (po_nodes p) (po_map p).
+  Proof.
+    rewrite opt_dangling_unfold. intros H. apply bind_ok in H as ([[[out m] o] i] & E & H). injection H as <-.
+    apply dang_fresh_inv in E. apply E.
   Qed.
 
   Theorem dangling_transport nodes outp p tape :
